@@ -198,7 +198,7 @@ func ruleC14ReturnedOwned(r *Run, p *Program, rule string) {
 	// functions returning a fresh slice: every returned slice is a make() of that activation
 	fresh := map[*ssa.Function]bool{}
 	for _, f := range p.ModuleFuncs("") {
-		if f.Pkg != p.MainS || f.Signature.Results().Len() != 1 || f.Blocks == nil {
+		if f.Signature.Results().Len() != 1 || f.Blocks == nil {
 			continue
 		}
 		if _, ok := f.Signature.Results().At(0).Type().Underlying().(*types.Slice); !ok {
